@@ -14,6 +14,7 @@ mod res;
 mod val;
 mod visit;
 mod w_defrag;
+mod w_flow;
 mod w_stream;
 mod worlds;
 
@@ -43,6 +44,7 @@ fn usage() -> ! {
 fn default_runs(prop: Prop, tier: Tier) -> u64 {
     let q = match prop {
         Prop::C07 => 300_000,
+        Prop::C08 => 400_000,
         _ => 100_000,
     };
     match tier {
